@@ -414,19 +414,22 @@ type tornRec struct {
 	kind     faultKind
 	off      int    // wire length right after the faulted Write
 	rest     []byte // bytes of that Write's buffer that were not written
+	next     []byte // buffer of the Write call that followed (nil if none)
+	hasNext  bool
 }
 
 type faultRWC struct {
 	tr     *opTracker
 	packed bool
 
-	mu        sync.Mutex
-	wire      []byte // every byte that reached the wire
-	delivered int    // complete frames already handed to the peer
-	toPeer    *mailbox
-	torn      []tornRec
-	stuck     bool // fkTimeoutStuck was triggered: all later writes time out
-	afterClose int  // Write calls after Close
+	mu          sync.Mutex
+	wire        []byte // every byte that reached the wire
+	delivered   int    // complete frames already handed to the peer
+	toPeer      *mailbox
+	torn        []tornRec
+	stuck       bool // fkTimeoutStuck was triggered: all later writes time out
+	pendingTorn int  // 1+index of the torn record waiting for the next Write call
+	afterClose  int  // Write calls after Close
 
 	rbuf   []byte
 	reof   bool
@@ -510,6 +513,11 @@ func (f *faultRWC) Write(b []byte) (int, error) {
 		f.mu.Unlock()
 		return 0, io.ErrClosedPipe
 	}
+	if f.pendingTorn > 0 {
+		t := &f.torn[f.pendingTorn-1]
+		t.next, t.hasNext = append([]byte(nil), b...), true
+		f.pendingTorn = 0
+	}
 	kind := f.tr.plan.kind
 	if f.stuck && !inject {
 		inject, kind = true, fkTimeoutStuck
@@ -556,6 +564,7 @@ func (f *faultRWC) Write(b []byte) (int, error) {
 	f.wire = append(f.wire, b[:n]...)
 	f.deliverLocked()
 	f.torn = append(f.torn, tornRec{writeIdx: idx, kind: kind, off: len(f.wire), rest: append([]byte(nil), b[n:]...)})
+	f.pendingTorn = len(f.torn)
 	if !timeout {
 		f.mu.Unlock()
 		return n, err
@@ -701,16 +710,15 @@ func (s *streamLink) wireCopy() ([]byte, []tornRec, int) {
 }
 
 // checkTornWrites is the torn-write monitor.  For every faulted Write that
-// left the stream inside a frame, whatever was written afterwards must begin
-// with the unwritten rest of that very buffer (the library may complete the
-// frame, e.g. within its partial-write timeout); anything else means bytes
-// followed a torn frame.  It returns a description of the first violation.
-func checkTornWrites(wire []byte, torn []tornRec, packed bool) (viol string, tornFrames int) {
+// left the stream inside a frame, either nothing is written afterwards, or
+// the very next Write call is a retry of the unwritten rest of that buffer
+// (the library's partial-write retry completes the frame; the retry's own
+// outcome is judged by its own record).  Anything else means bytes followed
+// a torn frame.  It returns a description of the first violation and the
+// number of faulted writes that cut a frame.
+func checkTornWrites(wire []byte, torn []tornRec, packed bool) (viol string, cuts int) {
 	for _, t := range torn {
-		if t.off > len(wire) {
-			continue
-		}
-		if len(t.rest) == 0 {
+		if t.off > len(wire) || len(t.rest) == 0 {
 			continue
 		}
 		// Is the stream cut at t.off inside a frame?  (A write that failed
@@ -718,23 +726,20 @@ func checkTornWrites(wire []byte, torn []tornRec, packed bool) (viol string, tor
 		if !midFrame(wire, t.off, packed) {
 			continue
 		}
-		tornFrames++
+		cuts++
 		tail := wire[t.off:]
 		if len(tail) == 0 {
 			continue
 		}
-		if len(tail) >= len(t.rest) && bytes.Equal(tail[:len(t.rest)], t.rest) {
-			continue // the frame was completed
-		}
-		if len(tail) < len(t.rest) && bytes.Equal(tail, t.rest[:len(tail)]) {
-			continue // still the same buffer being completed
+		if t.hasNext && bytes.Equal(t.next, t.rest) {
+			continue // the same buffer was retried
 		}
 		if viol == "" {
 			viol = "write #" + itoa(t.writeIdx) + " (" + t.kind.String() + ") left the stream inside a frame at offset " +
 				itoa(t.off) + "; " + itoa(len(tail)) + " further bytes were written that do not continue that frame"
 		}
 	}
-	return viol, tornFrames
+	return viol, cuts
 }
 
 func itoa(n int) string {
